@@ -80,14 +80,19 @@ Definition LS : N := 29.
 Definition LARGE_COMMUNITY : N := 32.
 Definition PREFIX_SID : N := 40.
 
-(* Attribute::canonical_flags *)
-Definition canonical_flags (code : N) : option N :=
-  match code with
-  | 1 | 2 | 3 | 5 | 6 => Some 64
-  | 4 | 9 | 10 | 14 | 15 | 26 | 29 => Some 128
-  | 7 | 8 | 16 | 17 | 18 | 32 | 40 | 23 => Some 192
-  | _ => None
+(* Attribute::canonical_flags (a table lookup: the match of the Rust source) *)
+Definition canon_table : list (N * N) :=
+  [(1, 64); (2, 64); (3, 64); (4, 128); (5, 64); (6, 64); (7, 192); (8, 192); (9, 128); (10, 128);
+   (14, 128); (15, 128); (16, 192); (17, 192); (18, 192); (26, 128); (32, 192); (40, 192); (29, 128);
+   (23, 192)].
+
+Fixpoint assoc (c : N) (l : list (N * N)) : option N :=
+  match l with
+  | [] => None
+  | (k, v) :: r => if c =? k then Some v else assoc c r
   end.
+
+Definition canonical_flags (code : N) : option N := assoc code canon_table.
 
 Definition new_with_value (code v : N) : option attr :=
   match canonical_flags code with
@@ -242,25 +247,31 @@ Section WithV6.
 
   (* ---------------------------------------------------------------- *)
   (* read_extcom: one 8-byte chunk                                     *)
+  (* bit tests on u8 values are written arithmetically: x & 0x40 = 0 is
+     (x / 64) mod 2 = 0, x & !0x40 is x - 64 when the bit is set, x & 0x3F is
+     x mod 64.  The typed forms without an is_transitive field, and the traffic
+     action / remark forms, are used only when they lose nothing (fix commit). *)
   Definition read_extcom (ch : list N) : res api_extcom :=
     match ch with
     | [t; s; b2; b3; b4; b5; b6; b7] =>
-        let tr := N.land t 64 =? 0 in
-        let cat := N.land t 191 in
+        let tr := (t / 64) mod 2 =? 0 in
+        let cat := if tr then t else t - 64 in
         let unk := Ok (XUnknown t ch) in
+        let reserved_zero := (b2 =? 0) && (b3 =? 0) && (b4 =? 0) && (b5 =? 0) && (b6 =? 0) in
         if cat =? 0 then Ok (XTwoOctet tr s (of_be16 b2 b3) (of_be32 b4 b5 b6 b7))
         else if cat =? 1 then Ok (XIpv4 tr s (ip4_to_string (of_be32 b2 b3 b4 b5)) (of_be16 b6 b7))
         else if cat =? 2 then Ok (XFourOctet tr s (of_be32 b2 b3 b4 b5) (of_be16 b6 b7))
-        else if cat =? 12 then Ok (XMup s (of_be16 b2 b3) (of_be32 b4 b5 b6 b7))
-        else if cat =? 128 then
+        else if (cat =? 12) && tr then Ok (XMup s (of_be16 b2 b3) (of_be32 b4 b5 b6 b7))
+        else if (cat =? 128) && tr then
           (if s =? 6 then Ok (XTrafficRate (of_be16 b2 b3) (of_be32 b4 b5 b6 b7))
-           else if s =? 7 then Ok (XTrafficAction (negb (N.land b7 1 =? 0)) (negb (N.land b7 2 =? 0)))
+           else if (s =? 7) && reserved_zero && (b7 <? 4)
+                then Ok (XTrafficAction (negb (b7 mod 2 =? 0)) (negb ((b7 / 2) mod 2 =? 0)))
            else if s =? 8 then Ok (XRedirect2 (of_be16 b2 b3) (of_be32 b4 b5 b6 b7))
-           else if s =? 9 then Ok (XTrafficRemark (N.land b7 63))
+           else if (s =? 9) && reserved_zero && (b7 <? 64) then Ok (XTrafficRemark (b7 mod 64))
            else unk)
-        else if cat =? 129 then
+        else if (cat =? 129) && tr then
           (if s =? 8 then Ok (XRedirectIp4 (ip4_to_string (of_be32 b2 b3 b4 b5)) (of_be16 b6 b7)) else unk)
-        else if cat =? 130 then
+        else if (cat =? 130) && tr then
           (if s =? 8 then Ok (XRedirect4 (of_be32 b2 b3 b4 b5) (of_be16 b6 b7)) else unk)
         else unk
     | _ => Panic P_READ_EOF
@@ -282,17 +293,17 @@ Section WithV6.
     | XMissing => None
     | XTwoOctet tr sub asn la =>
         match ensure_u8 sub, ensure_u16 asn with
-        | Some s, Some a => Some (N.lor 0 (trbit tr) :: s :: be16 a ++ be32 la)
+        | Some s, Some a => Some (0 + trbit tr :: s :: be16 a ++ be32 la)
         | _, _ => None
         end
     | XIpv4 tr sub addr la =>
         match ensure_u8 sub, ip4_of_string addr, ensure_u16 la with
-        | Some s, Some a, Some l => Some (N.lor 1 (trbit tr) :: s :: be32 a ++ be16 l)
+        | Some s, Some a, Some l => Some (1 + trbit tr :: s :: be32 a ++ be16 l)
         | _, _, _ => None
         end
     | XFourOctet tr sub asn la =>
         match ensure_u8 sub, ensure_u16 la with
-        | Some s, Some l => Some (N.lor 2 (trbit tr) :: s :: be32 asn ++ be16 l)
+        | Some s, Some l => Some (2 + trbit tr :: s :: be32 asn ++ be16 l)
         | _, _ => None
         end
     | XMup sub s2 s4 =>
@@ -313,7 +324,7 @@ Section WithV6.
         | Some a => Some (128 :: 8 :: be16 a ++ be32 la)
         | None => None
         end
-    | XTrafficRemark dscp => Some [128; 9; 0; 0; 0; 0; 0; N.land dscp 63]
+    | XTrafficRemark dscp => Some [128; 9; 0; 0; 0; 0; 0; dscp mod 64]
     | XRedirectIp4 addr la =>
         match ip4_of_string addr, ensure_u16 la with
         | Some a, Some l => Some (129 :: 8 :: be32 a ++ be16 l)
@@ -560,6 +571,8 @@ Section WithV6.
           match canonical_flags ty with
           | Some f =>
               if 65535 <? N.of_nat (length value) then Ok None
+              else if (ty =? NEXTHOP) && negb (Nat.eqb (length value) 4 || Nat.eqb (length value) 16)
+              then Ok None
               else Ok (decode_value ty f value)
           | None =>
               if (N.land flags 192 =? 192) && (flags <? 256)
@@ -810,7 +823,7 @@ Section Run.
     match wire_accept flags code d with
     | None => VL [VI 0]
     | Some a =>
-        VL [VI 1; v_attr a; v_res v_api (to_api v6p a); v_res v_oattr (roundtrip_v0 v6p v6r a)]
+        VL [VI 1; v_attr a; v_res v_api (to_api v6p a); v_res v_oattr (roundtrip v6p v6r a)]
     end.
 
   (* the consumers run on an accepted attribute [a]: as_path_length, encode,
@@ -826,7 +839,7 @@ Section Run.
 
   (* kind 1: an API attribute message *)
   Definition run_api (x : api_attr) : val :=
-    match from_api_v0 v6r x with
+    match from_api v6r x with
     | Panic _ => VL [VI (-1)]
     | Ok None => VL [VI 0]
     | Ok (Some a) => VL [VI 1; v_attr a; v_downstream a]
